@@ -30,6 +30,7 @@ func runC12(c *Ctx) {
 	c.rule("T4", "CancelFunctionStore.cancelFunctions is appended under mu.Lock and read under at least mu.RLock; Cancel's loop has no early exit", 4)
 	c.rule("T7", "the runners report the end of a context by its Err() (converted): context.Cause is not used in package parallelisation or in commonerrors", 0)
 	c.rule("T6", "Parallelise: the value handed to reflect.Append is not the bare reflect.ValueOf of a result that may be nil: its validity is tested (nil results are results too)", 1)
+	c.rule("T8", "Parallelise: each goroutine is handed its argument by value — the element is read from the caller's list before the goroutine is started, not whenever it gets to run (the function returns at the first error, before every goroutine has run)", 1)
 	c.rule("T5", "Parallelise: one goroutine per index < length, each calls the action exactly once before its single send; the result loop is bounded by the same length", 3)
 
 	for _, f := range c.srcFuncs(parPkg) {
@@ -710,9 +711,16 @@ func (c *Ctx) c12Parallelise() {
 		}
 	})
 	// argument is Index(i) with i the loop counter
-	idxOK := false
+	idxOK, eager := false, false
 	for _, a := range g.Call.Args {
-		if cl, ok := a.(*ssa.Call); ok && calleeFull(&cl.Call) == "(reflect.Value).Index" {
+		cl, ok := a.(*ssa.Call)
+		if ok && calleeFull(&cl.Call) == "(reflect.Value).Interface" && len(cl.Call.Args) > 0 {
+			// the element is read here, in Parallelise, before the goroutine starts
+			if inner, ok := cl.Call.Args[0].(*ssa.Call); ok {
+				cl, eager = inner, true
+			}
+		}
+		if ok && calleeFull(&cl.Call) == "(reflect.Value).Index" {
 			if _, isPhi := cl.Call.Args[1].(*ssa.Phi); isPhi {
 				idxOK = true
 			}
@@ -720,6 +728,11 @@ func (c *Ctx) c12Parallelise() {
 	}
 	c.check(bound != nil && bound == lenCall && idxOK, "T5", fname(f)+"/spawn", c.ipos(g), "one goroutine per index below the argument list's length",
 		"the spawning loop does not start one goroutine per element (bound or index changed)")
+	// T8: "invokes the action exactly once per argument": per argument of the list Parallelise was called with. The
+	// function returns at the first error, possibly before every goroutine got to run; a goroutine that is handed a
+	// reflect.Value into the caller's list reads the element whenever it runs — after the caller got its slice back.
+	c.check(eager, "T8", fname(f)+"/argument-read-before-the-goroutine-starts", c.ipos(g), "the element is converted (Interface()) by Parallelise itself, in the go statement's arguments",
+		"the goroutine receives a reflect.Value that refers to the caller's list and reads the element when it gets to run: Parallelise returns at the first error, the caller reuses its slice, and the goroutines which start later invoke the action with values that were never in the list (199 of 200 invocations on one processor)")
 	// body: exactly one call of the action parameter on every path, dominating the send
 	body := staticCallee(&g.Call)
 	if body != nil {
